@@ -17,6 +17,7 @@ import (
 	"verifharness/drive"
 	"verifharness/gen"
 	"verifharness/spec"
+	"verifharness/stats"
 )
 
 // C18 — a cancelled merge never leaves or reports a partial file.
@@ -235,7 +236,14 @@ func runCancelCase(c cancelCase) *Violation {
 			return v
 		}
 		total := ops
-		for j := int64(1); j <= total && j <= 60; j++ {
+		// the order in which a merge writes its sections varies from call to call, and with it
+		// what still follows an engine operation: every closure point is tried several times
+		reps := int64(6)
+		if total > 20 {
+			reps = 3
+		}
+		for jj := int64(0); jj < reps*min(total, 60); jj++ {
+			j := jj%min(total, 60) + 1
 			ch := make(chan struct{})
 			var seen int64
 			var once sync.Once
@@ -414,3 +422,26 @@ var c18 = Check[cancelCase]{
 func TestC18(t *testing.T) { c18.Rapid(t) }
 
 func init() { c18.register() }
+
+// Deterministic plan: three inputs (built, re-opened, built) that all carry vectors in the same
+// field - so that the merge reads and reconstructs several indexes for one field - cancelled at
+// every write report and, under the vectors tag, at every engine operation (each several times).
+func TestC18Fixed(t *testing.T) {
+	col := stats.New("C18", "cancel")
+	defer col.Write()
+	mk := func(tag string, n int) *spec.BatchSpec {
+		b := &spec.BatchSpec{}
+		for i := 0; i < n; i++ {
+			b.Docs = append(b.Docs, spec.DocSpec{ID: spec.B(fmt.Sprintf("%s%02d", tag, i)), Fields: []spec.FieldSpec{
+				{Name: "body", Type: 't', Stored: true, DV: true, Value: []byte(tag), Len: 1, Tokens: []spec.TokenSpec{{Term: spec.B(tag), Freq: 1}}},
+				{Name: "vec", Kind: spec.KindVec, Vec: &spec.VecSpec{Dim: 2, Data: []float32{float32(i), float32(len(tag) + n)}, Metric: "l2_norm", Opt: "recall"}},
+			}})
+		}
+		return b
+	}
+	c := cancelCase{BufSize: 64, Spins: []uint16{1, 50}, Plan: &spec.MergePlan{
+		Children: []spec.MergePlan{{Leaf: mk("a", 4)}, {Leaf: mk("bb", 3), Mmap: true}, {Leaf: mk("ccc", 5)}},
+		Drops:    []spec.DropSpec{{Nil: true}, {Docs: []uint32{1}}, {Nil: true}}}}
+	col.CaseHash(stats.HashJSON("fixed-three-vector-inputs"), true, []string{"vector-phase", "three-inputs-with-vectors-in-one-field"}, func() any { return sampleOf(c) })
+	reportBig(t, col, "C18", "cancel", c, safeRun(c18, c))
+}
